@@ -82,7 +82,8 @@ Record obs := {
    (model, node) *)
 Definition mismatch := (Z * Z * Z * option (option row * option row))%type.
 
-Fixpoint run_chain (c : cfg) (cm : db) (mem : avgcache) (bs : list block) (ex : list obs)
+(* [keep] selects the rows that are compared (a projection of the observables) *)
+Fixpoint run_chain_gen (keep : row -> bool) (c : cfg) (cm : db) (mem : avgcache) (bs : list block) (ex : list obs)
   : option mismatch :=
   match bs, ex with
   | [], _ => None
@@ -91,9 +92,9 @@ Fixpoint run_chain (c : cfg) (cm : db) (mem : avgcache) (bs : list block) (ex : 
     | Done (s', mem') =>
       if negb (o_ok o) then Some (b_height b, 2, 0, None)
       else match o_rows o with
-           | None => run_chain c s' mem' bs' ex'
-           | Some rs => match rows_first_diff (sort_rows (dump_db s')) rs with
-                        | None => run_chain c s' mem' bs' ex'
+           | None => run_chain_gen keep c s' mem' bs' ex'
+           | Some rs => match rows_first_diff (filter keep (sort_rows (dump_db s'))) (filter keep rs) with
+                        | None => run_chain_gen keep c s' mem' bs' ex'
                         | Some d => Some (b_height b, 3, 0, Some d)
                         end
            end
@@ -103,6 +104,9 @@ Fixpoint run_chain (c : cfg) (cm : db) (mem : avgcache) (bs : list block) (ex : 
     end
   | _ :: _, [] => Some (0, 5, 0, None)
   end.
+Definition run_chain := run_chain_gen (fun _ => true).
+Definition keep_tags (tags : list Z) (r : row) : bool :=
+  match r with t :: _ => existsb (Z.eqb t) tags | [] => false end.
 
 (* replay of a chain from a committed database and an in-memory cache: the ledger semantics *)
 Fixpoint replay (c : cfg) (cm : db) (mem : avgcache) (bs : list block) : outcome (db * avgcache) :=
